@@ -116,7 +116,12 @@ Record raft := mkRaft {
   r_max_committed_size_per_ready : N;
   r_prs : tracker;
   r_msgs : list msg;
-  r_draws : list N          (* oracle: election timeouts drawn by thread_rng, in order *)
+  r_draws : list N;         (* oracle: election timeouts drawn by thread_rng, in order *)
+  (* Storage::snapshot semantics: None = MemStorage's own (test scaffolding: built at
+     hard_state.commit, index bumped to the requested one); Some a = the simulated
+     application's storage (harness SimStorage): the snapshot is taken at the
+     application's applied index [a] and is temporarily unavailable while a < request *)
+  r_snap_app : option N
 }.
 
 #[export] Instance eta_tracker : Settable _ :=
@@ -130,7 +135,7 @@ Record raft := mkRaft {
     r_heartbeat_timeout; r_election_timeout; r_randomized_election_timeout;
     r_min_election_timeout; r_max_election_timeout; r_priority; r_max_uncommitted_size;
     r_uncommitted_size; r_last_log_tail_index; r_max_committed_size_per_ready; r_prs; r_msgs;
-    r_draws>.
+    r_draws; r_snap_app>.
 
 (* ------------------------------------------------------------------ *)
 (* progress map (sorted association list) *)
@@ -328,12 +333,30 @@ Definition send (r : raft) (m : msg) : Res raft :=
             else m1 in
   Ok (r <| r_msgs := r_msgs r ++ [m2] |>).
 
+(* RaftLog::snapshot over the configured storage *)
+Definition raft_snapshot (r : raft) (request_index to : N) : Res (sres snapshot) :=
+  match r_snap_app r with
+  | None => log_snapshot (r_log r) request_index to
+  | Some a =>
+      let from_store :=
+        if (a <? request_index) || (a =? 0) then Ok (SErr SnapshotTemporarilyUnavailable) else
+        t <- storage_term (store (r_log r)) a ;;
+        match t with
+        | SOk t => Ok (SOk (mkSnap a t (cs (store (r_log r)))))
+        | SErr _ => Ok (SErr SnapshotTemporarilyUnavailable)
+        end in
+      match u_snapshot (unst (r_log r)) with
+      | Some s => if request_index <=? s_index s then Ok (SOk s) else from_store
+      | None => from_store
+      end
+  end.
+
 (* RaftCore::prepare_send_snapshot: None = false *)
 Definition prepare_send_snapshot (r : raft) (m : msg) (pr : progress) (to : N)
   : Res (option (msg * progress)) :=
   if negb (recent_active pr) then Ok None else
   let m := m <| m_type := MsgSnapshot |> in
-  sr <- log_snapshot (r_log r) (pending_request_snapshot pr) to ;;
+  sr <- raft_snapshot r (pending_request_snapshot pr) to ;;
   match sr with
   | SErr SnapshotTemporarilyUnavailable => Ok None
   | SErr _ => Panic site_snapshot_err
